@@ -392,3 +392,167 @@ Theorem T1_sorter_Sort_no_panic (lt : nat -> nat -> bool) (fuel : nat) (ids : li
   exists out, gs_Sort lt fuel ids = Ok out /\ length out = length ids.
 Proof. exact (gs_Sort_no_panic lt fuel ids). Qed.
 Print Assumptions T1_sorter_Sort_no_panic.
+
+(* ================================================================== internal/grouper/grouper.go, translated *)
+(* Gen/GenGrouper.v is produced by tools/qf2coq/grouper.go from the Go text of the hash table of
+   internal/grouper/grouper.go: the structs tableEntry / GroupStats / table become records, every function a
+   state-passing definition gg_<name> over the table (integers on Z with the uint32 / uint64 wraps, a *tableEntry
+   as an index into t.entries, float64 loadFactor as an exact fraction, every for loop a Fixpoint over its own
+   counter, every range loop a Fixpoint over the slice); row ids are an ABSTRACT type A with zero value id0,
+   equals(t.comparables, i, j) is an arbitrary eqb, the uint64 fold of c.Hash an arbitrary hash.
+   Each theorem says: the generated definition IS the function of Model/Grouper.v (the one the theorems of C04 /
+   C05 and the grouper engine use) on every model table (injected by rep_table: None = the zero tableEntry),
+   for every A, id0, eqb, hash and EVERY fuel from the stated bound on — faults included.
+   Fuel: gg_f fuel = (O => Panic | S fuel' => body whose for loops and calls all get fuel'). *)
+From QF Require Import Gen.GenGrouper Proofs.GenGrouperProofs.
+
+(* the model's probing loop does not depend on its fuel from the table length on (a probe that has not stopped
+   after [length es] slots never stops) — this is what lets every larger generated fuel agree with the model *)
+Theorem T1_grouper_probe_fuel {A : Type} (stop : Grouper.entry A -> bool) (es : list (option (Grouper.entry A)))
+        (mask : N) (f1 f2 : nat) (p c : N) :
+  (length es <= f1)%nat -> (f1 <= f2)%nat ->
+  Grouper.probe stop f2 es mask p c = Grouper.probe stop f1 es mask p c.
+Proof. exact (probe_fuel_ge stop es mask f1 f2 p c). Qed.
+Print Assumptions T1_grouper_probe_fuel.
+
+(* table.grow(): no premise on the table; fuel above the new length uint32(2 * len) *)
+Theorem T1_grouper_grow {A : Type} (id0 : A) (collectIx : bool) (t : Grouper.table A) (f : nat) :
+  (N.to_nat (grow_newlen t) <= f)%nat ->
+  gg_grow id0 (S f) (rep_table id0 collectIx t) = ofmap (rep_table id0 collectIx) (Grouper.grow t).
+Proof. exact (gg_grow_eq id0 (fun _ _ => true) (fun _ => 0%N) collectIx t f). Qed.
+Print Assumptions T1_grouper_grow.
+Example T1_grouper_grow_example :
+  let t := Grouper.mkTable [Some (Grouper.mkEntry 7%N 1%nat []); None; Some (Grouper.mkEntry 3%N 2%nat [2; 5]%nat); None]
+                           3%N 4%N 2%N 0%N 0%N 0%N in
+  (N.to_nat (grow_newlen t) <= 8)%nat /\
+  gg_grow 0%nat 9 (rep_table 0%nat true t) = ofmap (rep_table 0%nat true) (Grouper.grow t) /\
+  exists t', Grouper.grow t = Ok t' /\ length (Grouper.entries t') = 8%nat.
+Proof. vm_compute. split; [lia|split; [reflexivity|]]. eexists. split; reflexivity. Qed.
+
+(* table.insertEntry(i).  Premises: the length of t.entries is a Go int (bitMask := uint64(len - 1)); the fuel
+   covers the table before and after a growth *)
+Theorem T1_grouper_insertEntry {A : Type} (id0 : A) (eqb : A -> A -> bool) (hash : A -> N) (collectIx : bool)
+        (t : Grouper.table A) (i : A) (f : nat) :
+  Z.of_nat (length (Grouper.entries t)) < 2 ^ 63 ->
+  (N.to_nat (grow_newlen t) + 2 <= f)%nat -> (length (Grouper.entries t) + 2 <= f)%nat ->
+  gg_insertEntry id0 eqb hash f (rep_table id0 collectIx t) i
+  = ofmap (rep_table id0 collectIx) (Grouper.insert_entry eqb hash collectIx t i).
+Proof. exact (gg_insertEntry_eq id0 eqb hash collectIx t i f). Qed.
+Print Assumptions T1_grouper_insertEntry.
+Example T1_grouper_insertEntry_example :   (* a second member joins the group of row 2 after one collision *)
+  let t := Grouper.mkTable [Some (Grouper.mkEntry 4%N 1%nat []); Some (Grouper.mkEntry 4%N 2%nat []); None; None]
+                           2%N 4%N 2%N 0%N 0%N 0%N in
+  let eqb a b := Nat.eqb (a mod 2) (b mod 2) in
+  Z.of_nat (length (Grouper.entries t)) < 2 ^ 63 /\ (N.to_nat (grow_newlen t) + 2 <= 10)%nat /\
+  (length (Grouper.entries t) + 2 <= 10)%nat /\
+  Grouper.insert_entry eqb (fun _ => 4%N) true t 6%nat
+  = Ok (Grouper.mkTable [Some (Grouper.mkEntry 4%N 1%nat []); Some (Grouper.mkEntry 4%N 2%nat [2; 6]%nat); None; None]
+                        2%N 4%N 2%N 0%N 0%N 1%N) /\
+  gg_insertEntry 0%nat eqb (fun _ => 4%N) 10 (rep_table 0%nat true t) 6%nat
+  = ofmap (rep_table 0%nat true) (Grouper.insert_entry eqb (fun _ => 4%N) true t 6%nat).
+Proof. vm_compute. split; [reflexivity|]. split; [lia|]. split; [lia|]. split; reflexivity. Qed.
+
+Theorem T1_grouper_newTable {A : Type} (id0 : A) (collectIx : bool) (e : N) (f : nat) :
+  gg_newTable id0 (S f) (Z.of_N e) collectIx = Ok (rep_table id0 collectIx (Grouper.new_table e)).
+Proof. exact (gg_newTable_eq id0 (fun _ _ => true) (fun _ => 0%N) collectIx e f). Qed.
+Print Assumptions T1_grouper_newTable.
+
+(* groupIndex: the entries and the GroupStats it returns ([stats_of]: the three counters, groupCount, the load
+   factor).  The fuel bound 2^32 + 3 is uniform: from the first growth on a table length is a uint32. *)
+Theorem T1_grouper_groupIndex {A : Type} (id0 : A) (eqb : A -> A -> bool) (hash : A -> N) (collectIx : bool)
+        (ids : list A) (f : nat) :
+  Z.of_nat (length ids) < 2 ^ 63 -> 2 ^ 32 + 3 <= Z.of_nat f -> (length ids + 11 <= f)%nat ->
+  gg_groupIndex id0 eqb hash f ids collectIx
+  = ofmap (fun t => (rep_entries id0 (Grouper.entries t), stats_of t)) (Grouper.group_index eqb hash collectIx ids).
+Proof. exact (gg_groupIndex_eq id0 eqb hash collectIx ids f). Qed.
+Print Assumptions T1_grouper_groupIndex.
+Example T1_grouper_fuel_premises_example :
+  exists f, 2 ^ 32 + 4 <= Z.of_nat f /\ (length [5; 0; 4; 3; 2; 1]%nat + 12 <= f)%nat.
+Proof. exists (Z.to_nat (2 ^ 32 + 18)). cbn [length]. split; lia. Qed.
+
+(* GroupBy: the groups (slot order, members in index order) and the statistics *)
+Theorem T1_grouper_GroupBy {A : Type} (id0 : A) (eqb : A -> A -> bool) (hash : A -> N) (ids : list A) (f : nat) :
+  Z.of_nat (length ids) < 2 ^ 63 -> 2 ^ 32 + 4 <= Z.of_nat f -> (length ids + 12 <= f)%nat ->
+  gg_GroupBy id0 eqb hash f ids
+  = ofmap (fun t => (map Grouper.members (Grouper.occ (Grouper.entries t)), stats_of t))
+          (Grouper.group_index eqb hash true ids).
+Proof. exact (gg_GroupBy_eq id0 eqb hash ids f). Qed.
+Print Assumptions T1_grouper_GroupBy.
+Theorem T1_grouper_GroupBy_groups {A : Type} (id0 : A) (eqb : A -> A -> bool) (hash : A -> N) (ids : list A) (f : nat) :
+  Z.of_nat (length ids) < 2 ^ 63 -> 2 ^ 32 + 4 <= Z.of_nat f -> (length ids + 12 <= f)%nat ->
+  ofmap fst (gg_GroupBy id0 eqb hash f ids) = Grouper.group_ids_gen eqb hash ids.
+Proof. exact (gg_GroupBy_groups id0 eqb hash ids f). Qed.
+Print Assumptions T1_grouper_GroupBy_groups.
+Theorem T1_grouper_GroupBy_stats {A : Type} (id0 : A) (eqb : A -> A -> bool) (hash : A -> N) (ids : list A) (f : nat) :
+  Z.of_nat (length ids) < 2 ^ 63 -> 2 ^ 32 + 4 <= Z.of_nat f -> (length ids + 12 <= f)%nat ->
+  ofmap (fun r => stats_tuple (snd r)) (gg_GroupBy id0 eqb hash f ids)
+  = ofmap ztuple (Grouper.group_stats_gen eqb hash true ids).
+Proof. exact (gg_GroupBy_stats id0 eqb hash ids f). Qed.
+Print Assumptions T1_grouper_GroupBy_stats.
+
+Theorem T1_grouper_Distinct {A : Type} (id0 : A) (eqb : A -> A -> bool) (hash : A -> N) (ids : list A) (f : nat) :
+  Z.of_nat (length ids) < 2 ^ 63 -> 2 ^ 32 + 4 <= Z.of_nat f -> (length ids + 12 <= f)%nat ->
+  gg_Distinct id0 eqb hash f ids = Grouper.distinct_ids_gen eqb hash ids.
+Proof. exact (gg_Distinct_eq id0 eqb hash ids f). Qed.
+Print Assumptions T1_grouper_Distinct.
+
+(* the run of C04_example_run / its Distinct on the translated text (a fuel that is enough for this input;
+   all six rows collide after the uint32 truncation of the hash, probing wraps around to slot 0) *)
+Example T1_grouper_GroupBy_example :
+  let eqb a b := (Nat.eqb (a mod 3) (b mod 3) && Nat.ltb (a mod 3) 2)%bool in
+  ofmap fst (gg_GroupBy 0%nat eqb (fun _ => 4294967301%N) 30 [5; 0; 4; 3; 2; 1]%nat)
+    = Ok [[2]; [5]; [0; 3]; [4; 1]]%nat
+  /\ ofmap fst (gg_GroupBy 0%nat eqb (fun _ => 4294967301%N) 30 [5; 0; 4; 3; 2; 1]%nat)
+    = Grouper.group_ids eqb (fun _ => 4294967301%N) [5; 0; 4; 3; 2; 1]%nat
+  /\ gg_Distinct 0%nat eqb (fun _ => 4294967301%N) 30 [5; 0; 4; 3; 2; 1]%nat = Ok [2; 5; 0; 4]%nat
+  /\ ofmap (fun r => stats_tuple (snd r)) (gg_GroupBy 0%nat Nat.eqb N.of_nat 40 (seq 0 12))   (* two growths *)
+    = ofmap ztuple (Grouper.group_stats_gen Nat.eqb N.of_nat true (seq 0 12)).
+Proof. vm_compute. repeat split; reflexivity. Qed.
+
+(* what the tie buys: C04_partition and C05_distinct hold of the translated Go text *)
+Theorem T1_grouper_partition {A : Type} (id0 : A) (eqb : A -> A -> bool) (hash : A -> N) (ids : list A) (f : nat) :
+  NoDup ids -> Grouper.per_on eqb ids -> Grouper.hash_respects eqb hash ids ->
+  (N.of_nat (length ids) <= 2 ^ 30)%N -> 2 ^ 32 + 4 <= Z.of_nat f ->
+  exists gs st, gg_GroupBy id0 eqb hash f ids = Ok (gs, st) /\ Grouper.partition_ok eqb ids gs.
+Proof. exact (gg_GroupBy_partition id0 eqb hash ids f). Qed.
+Print Assumptions T1_grouper_partition.
+Theorem T1_grouper_distinct {A : Type} (id0 : A) (eqb : A -> A -> bool) (hash : A -> N) (ids : list A) (f : nat) :
+  NoDup ids -> Grouper.per_on eqb ids -> Grouper.hash_respects eqb hash ids ->
+  (N.of_nat (length ids) <= 2 ^ 30)%N -> 2 ^ 32 + 4 <= Z.of_nat f ->
+  exists d, gg_Distinct id0 eqb hash f ids = Ok d /\ Grouper.distinct_ok eqb ids d.
+Proof. exact (gg_Distinct_distinct id0 eqb hash ids f). Qed.
+Print Assumptions T1_grouper_distinct.
+(* premises: the example of Properties/C04.v (C04_example_premises) with any fuel of T1_grouper_fuel_premises_example *)
+
+(* the float64 load factor: every value the code stores is groupCount / 2^k (halved at most 32 times) with
+   groupCount a uint32, i.e. m * 2^e with |m| < 2^53 and e in the normal exponent range of binary64 — so the
+   translation of the two float divisions and of the comparison with 0.5 as exact fractions loses nothing *)
+Theorem T1_grouper_load_factor_representable (gc k halvings : Z) :
+  0 <= gc < 2 ^ 32 -> 0 <= k <= 32 -> 0 <= halvings <= 32 ->
+  exists m e : Z, Z.abs m < 2 ^ 53 /\ -1074 <= e <= 971 /\
+    m * 2 ^ (e + (k + halvings + 1074)) = gc * 2 ^ 1074.
+Proof. exact (gg_load_factor_representable gc k halvings). Qed.
+Print Assumptions T1_grouper_load_factor_representable.
+
+(* the premises of the theorems above on concrete inputs *)
+Example T1_grouper_probe_fuel_example :   (* a full table of two slots: the probe cycles, whatever the fuel *)
+  let es := [Some (Grouper.mkEntry 1%N 1%nat []); Some (Grouper.mkEntry 2%N 2%nat [])] in
+  (length es <= 2)%nat /\ (2 <= 7)%nat /\
+  Grouper.probe (fun _ => false) 7 es 1%N 0%N 0%N = Panic /\ Grouper.probe (fun _ => false) 2 es 1%N 0%N 0%N = Panic.
+Proof. vm_compute. repeat split; lia. Qed.
+Example T1_grouper_partition_premises_example :
+  let ids := [5; 0; 4; 7]%nat in
+  NoDup ids /\ Grouper.per_on Nat.eqb ids /\ Grouper.hash_respects Nat.eqb N.of_nat ids /\
+  (N.of_nat (length ids) <= 2 ^ 30)%N /\ exists f, 2 ^ 32 + 4 <= Z.of_nat f.
+Proof.
+  cbv zeta. split; [|split; [|split; [|split]]].
+  - repeat constructor; cbn [In]; intuition discriminate.
+  - split.
+    + intros a b _ _ H. apply Nat.eqb_eq in H. subst. apply Nat.eqb_refl.
+    + intros a b c _ _ _ H1 H2. apply Nat.eqb_eq in H1, H2. subst. apply Nat.eqb_refl.
+  - intros a b _ _ H. apply Nat.eqb_eq in H. subst. reflexivity.
+  - cbn [length]. lia.
+  - exists (Z.to_nat (2 ^ 32 + 4)). lia.
+Qed.
+Example T1_grouper_load_factor_example : 0 <= 3 < 2 ^ 32 /\ 0 <= 3 <= 32 /\ 0 <= 1 <= 32.
+Proof. lia. Qed.
